@@ -587,6 +587,34 @@ func run(r *mon.Run) {
 		sigEdit("garbage-member-first", func(pi *sh.ParameterisedIdentifier, pl *sh.ParameterisedList) {
 			*pl = append(sh.ParameterisedList{{Label: "junk", Params: sh.Parameters{"sig": []byte("x")}}}, *pl...)
 		})
+		// a second, unsigned member whose window covers an instant at which the genuine signature is no longer / not yet
+		// valid: the exchange must not verify at that instant, whichever member comes first
+		for _, shift := range []time.Duration{s.spec.Expires.Sub(s.spec.Date) + 24*time.Hour, -(s.spec.Expires.Sub(s.spec.Date) + 24*time.Hour)} {
+			for _, decoyFirst := range []bool{false, true} {
+				shift, decoyFirst := shift, decoyFirst
+				v, ok := rewriteSig(s, func(pi *sh.ParameterisedIdentifier, pl *sh.ParameterisedList) {
+					d := sh.ParameterisedIdentifier{Label: "decoy", Params: sh.Parameters{}}
+					for k, val := range pi.Params {
+						d.Params[k] = val
+					}
+					d.Params["date"] = pi.Params["date"].(int64) + int64(shift/time.Second)
+					d.Params["expires"] = pi.Params["expires"].(int64) + int64(shift/time.Second)
+					d.Params["sig"] = []byte("not a signature")
+					if decoyFirst {
+						*pl = append(sh.ParameterisedList{d}, *pl...)
+					} else {
+						*pl = append(*pl, d)
+					}
+				})
+				if !ok {
+					continue
+				}
+				c := clone(s.e)
+				c.SignatureHeaderValue = v
+				judge(r, s, c, mid.Add(shift), fetch, "signature-param", fmt.Sprintf("decoy-member-with-live-window(first=%v,shift=%v)", decoyFirst, shift > 0), 37)
+				judge(r, s, c, mid, fetch, "signature-param", fmt.Sprintf("decoy-member(first=%v),genuine-live", decoyFirst), 37)
+			}
+		}
 		// header given as raw text variations
 		for name, v := range map[string]string{"empty": "", "garbage": "\x00\xff", "sig-only": "label;sig=*AA==*", "whitespace(unsigned)": " " + strings.Replace(s.e.SignatureHeaderValue, ";", " ; ", -1) + " "} {
 			c := clone(s.e)
